@@ -1,5 +1,5 @@
 """C10 — hostile or malformed requests end in a client fault, never a crash."""
-import os, sys, json, copy, subprocess, binascii
+import os, sys, json, copy, subprocess, binascii, time
 import lib
 from lib import gz, gtext, glist, gbool, gopt
 import c10_drive as D
@@ -10,7 +10,7 @@ THEOREMS = [
     'C10_syntax_xml', 'C10_syntax_soap', 'C10_syntax_json', 'C10_syntax_yaml_refuted', 'C10_syntax_yaml_partial',
     'C10_syntax_msgpack', 'C10_leaf_total', 'C10_xml_total', 'C10_soap_total', 'C10_dict_total',
     'C10_dict_fuel_sufficient', 'C10_xml_wsgi_total', 'C10_soap_wsgi_total', 'C10_dict_wsgi_total',
-    'C10_fault_means_not_called', 'C10_get_out_object_guard', 'C10_wsgi_charset',
+    'C10_fault_means_not_called', 'C10_get_out_object_guard', 'C10_wsgi_charset', 'C10_binary_total',
 ]
 
 # what each parser library may raise, as assumed by the theorems (C10/Proofs.v XML_FIRST,
@@ -150,8 +150,13 @@ def oracle_campaign(check, sv, which, desc):
     quick = check.tier == 'quick'
     n_struct = 140 if quick else 2500
     stats = {}
+    spent = {}
     def run(req, origin):
+        t0 = time.time()
         obs = check_request(check, sv, which, req, origin)
+        o = origin.replace(', cross output', '').split('(')[0]
+        n, t = spent.get(o, (0, 0.0))
+        spent[o] = (n + 1, t + time.time() - t0)
         k = (req['protocol'], obs.kind if obs.kind != 'fault' else 'fault:' + str(obs.code))
         stats[k] = stats.get(k, 0) + 1
         return obs
@@ -180,6 +185,47 @@ def oracle_campaign(check, sv, which, desc):
     #     in an otherwise valid request: the boundary cases of the leaf readers, end to end
     idx = G.field_index(desc)
     cls_fields = dict(desc['classes'])
+    from lxml import etree
+
+    def at_place(base_m, path, multi, lit, origin, vs, some=False):
+        """the literal at its place in an otherwise valid request, in every protocol that can carry it (with
+        [some]: in one dict protocol and one XML protocol drawn by rng, and HttpRpc)"""
+        args = G.gen_value_for_method(rng, desc, base_m, path)
+        args2 = G.put_at(copy.deepcopy(args), path, [lit] if multi else lit)
+        doc = {base_m: args2}
+        big = isinstance(lit, str) and len(lit) > 5000
+        dps = ('json', 'yaml', 'msgpack')
+        xps = (('xml', None), ('soap11', G.S11))
+        if some:
+            dps, xps = (rng.choice(dps),), (rng.choice(xps),)
+        for p in dps:
+            b = G.render_dict(p, G.msgpack_top(doc) if p == 'msgpack' else doc)
+            if b is not None:
+                for v in vs:
+                    run(dict(protocol=p, validator=v, transport='server', body=b), origin)
+                for cp in D.CROSS:
+                    if D.in_proto(cp) == p and ((isinstance(lit, str) and not big) or rng.random() < .2):
+                        run(dict(protocol=cp, validator=rng.choice((None, 'soft')), transport='server', body=b),
+                            origin + ', cross output')
+        if isinstance(lit, (str, int, float, bool)) or lit is None:
+            for p, ns in xps:
+                try:
+                    b = etree.tostring(G.render_xml(desc, base_m, args2, ns))
+                except Exception:
+                    continue
+                for v in ((None, 'soft') if len(vs) > 1 else vs):
+                    run(dict(protocol=p, validator=v, transport='server', body=b), origin)
+                if p == 'xml' and len(vs) > 1 and origin != 'leaf sweep':
+                    run(dict(protocol=p, validator='lxml', transport='server', body=b), origin)
+            if isinstance(lit, str):
+                try:
+                    qs = G.render_qs(base_m, args2)
+                except Exception:
+                    return
+                for v in (('soft', None) if origin != 'leaf sweep' else ('soft',)):
+                    run(dict(protocol='http', validator=v, transport='wsgi', body=b'', method='GET',
+                             path='/' + base_m, qs=qs, ctype=None), origin)
+
     for m, params in desc['methods']:
         targets = []      # (path in args, kind)
         def walk(owner_fields, pre, depth):
@@ -201,50 +247,37 @@ def oracle_campaign(check, sv, which, desc):
             if quick:
                 lits = list(G.KIND_JUNK.get(k, [])) + rng.sample(G.GENERAL_JUNK, 4)
             for lit in lits:
-                base_m, args = m, G.gen_value_for_method(rng, desc, m, path)
-                args2 = G.put_at(copy.deepcopy(args), path, [lit] if multi else lit)
-                doc = {base_m: args2}
-                for p in ('json', 'yaml', 'msgpack'):
-                    b = G.render_dict(p, G.msgpack_top(doc) if p == 'msgpack' else doc)
-                    if b is not None:
-                        for v in (None, 'soft'):
-                            run(dict(protocol=p, validator=v, transport='server', body=b), 'leaf sweep')
-                        for cp in D.CROSS:
-                            if D.in_proto(cp) == p and (isinstance(lit, str) or rng.random() < .2):
-                                run(dict(protocol=cp, validator=rng.choice((None, 'soft')), transport='server', body=b),
-                                    'leaf sweep, cross output')
-                if isinstance(lit, (str, int, float, bool)) or lit is None:
-                    from lxml import etree
-                    for p, ns in (('xml', None), ('soap11', G.S11)):
-                        try:
-                            b = etree.tostring(G.render_xml(desc, base_m, args2, ns))
-                        except Exception:
-                            continue
-                        for v in (None, 'soft'):
-                            run(dict(protocol=p, validator=v, transport='server', body=b), 'leaf sweep')
-                    if isinstance(lit, str):
-                        try:
-                            qs = G.render_qs(base_m, args2)
-                            run(dict(protocol='http', validator='soft', transport='wsgi', body=b'', method='GET',
-                                     path='/' + base_m, qs=qs, ctype=None), 'leaf sweep')
-                        except Exception:
-                            pass
+                at_place(m, path, multi, lit, 'leaf sweep', (None, 'soft'))
+            # length as a dimension: 1, 99, 100, 101, 1000, 70000 characters
+            for lit in G.long_literals(rng, k, every=not quick):
+                # quick: binary parameters in every protocol with every validator, binary members of a nested object
+                # with every validator in one protocol of each family, the other kinds in one of each
+                binary = G.is_binary_kind(k)
+                full = not quick or (binary and len(path) == 1)
+                vs = (None, 'soft') if (full or binary) else (rng.choice((None, 'soft')),)
+                at_place(m, path, multi, lit, 'leaf sweep, length %d' % len(lit), vs, some=not full)
     # 1c. the same for the single argument of every bare method
     from lxml import etree as _et
     for m, ty in desc.get('bare', []):
         t, multi = (ty[1], True) if ty[0] == 'arr' else (ty, False)
         k = 'enum' if t[0] == 'enum' else t[1] if t[0] == 'leaf' else None
         lits = (list(G.KIND_JUNK.get(k, [])) if k else []) + (G.GENERAL_JUNK if not quick else rng.sample(G.GENERAL_JUNK, 8))
-        for lit in lits:
+        n_short = len(lits)
+        if k:
+            lits += G.long_literals(rng, k, every=not quick)
+        for li, lit in enumerate(lits):
             val = [lit] if multi else lit
-            for p in ('json', 'yaml', 'msgpack') + D.CROSS:
+            # quick: the long literals of the non-binary kinds in one dict protocol and one XML protocol
+            some = quick and li >= n_short and not G.is_binary_kind(k)
+            for p in ((rng.choice(('json', 'yaml', 'msgpack')),) if some else ('json', 'yaml', 'msgpack') + D.CROSS):
                 ip = D.in_proto(p)
                 b = G.render_dict(ip, G.msgpack_top({m: val}) if ip == 'msgpack' else {m: val})
                 if b is not None:
                     for v in (None, 'soft'):
                         run(dict(protocol=p, validator=v, transport='server', body=b), 'bare argument sweep')
             if isinstance(lit, (str, int, float, bool)) or lit is None:
-                for p, ns in (('xml', None), ('soap11', G.S11), ('soap12', G.S12)):
+                xps = (('xml', None), ('soap11', G.S11), ('soap12', G.S12))
+                for p, ns in ((rng.choice(xps),) if some else xps):
                     try:
                         b = _et.tostring(G.render_xml(desc, m, G.Bare(val, ty), ns))
                     except Exception:
@@ -315,6 +348,10 @@ def oracle_campaign(check, sv, which, desc):
         for m in ('f', 'g'):
             run(dict(protocol='http', validator='soft', transport='wsgi', body=b'', method='GET', path='/' + m, qs=qs,
                      ctype=None), 'query string')
+    check.extra['oracle_seconds_%s' % which] = dict((o, '%d requests, %.1fs' % nt) for o, nt in sorted(spent.items()))
+    if os.environ.get('C10_TIMING'):
+        for o, nt in sorted(spent.items()):
+            sys.stderr.write('%-40s %6d requests %6.1fs\n' % ((o,) + nt))
     check.extra['oracle_outcomes'] = dict(('%s %s' % k, n) for k, n in sorted(stats.items()))
 
 
@@ -385,21 +422,30 @@ def leaf_correspondence(check, sv):
     from spyne.model.enum import Enum
     Color = Enum(*c10_universe.ENUM_VALUES, type_name='Color')
     kinds = [('int', '(LInt (Fin 1024))'), ('text', 'LText'), ('bool', 'LBool'), ('datetime', 'LDateTime'), ('date', 'LDate'),
-             ('time', 'LTime'), ('duration', 'LDur'), ('bytes', 'LBytes'), ('enum', '(LEnum %s)' % glist([gtext(v) for v in c10_universe.ENUM_VALUES]))]
+             ('time', 'LTime'), ('duration', 'LDur'), ('bytes', '(LBytes BDefault)'), ('b64', '(LBytes BBase64)'),
+             ('urlsafe', '(LBytes BUrl)'), ('hex', '(LBytes BHex)'), ('enum', '(LEnum %s)' % glist([gtext(v) for v in c10_universe.ENUM_VALUES]))]
     texts = [t for t in G.XML_JUNK_TEXT if t] + [str(v) if not isinstance(v, str) else v for vs in G.VALID_LEAF.values() for v in vs
                                                  if not isinstance(v, (dict, bytes))]
     texts += ['2020-01-02T03:04:05+14:00', '2020-01-02T03:04:05-23:59', '2020-01-02T03:04:05+24:00', '2020-02-29', '2021-02-29',
               '2020-02-30Z', '2020-04-31+01:00', '23:59:60', '00:00:00.0000001', '2020-01-02 03:04:05', '2020-1-2', 'P1Y2M3DT4H5M6.7S',
               '-PT0S', 'YQ==', 'YQ=', 'Y', '+5', '-', '1' * 1025, 'True', 'TRUE', 'green ', 'redx']
     texts = sorted(set(t for t in texts if t and all(ord(c) < 128 for c in t)))
+    # length as a dimension (up to 1000 characters as Gallina literals); non-ASCII text for the binary decoders
+    def longs(kn):
+        ls = [t for t in G.long_literals(rng, kn) if 0 < len(t) <= 1000]
+        if G.is_binary_kind(kn):
+            ls += [t for t in G.KIND_JUNK.get(kn, []) if t] + ['\u00e9', 'YQ\u00e9==', '\ud800', 'YWJj\ud800', '6\u0663', 'A' * 100, 'A' * 104 + '=']
+        else:
+            ls = [t for t in ls if all(ord(c) < 128 for c in t)]
+        return ls
     cases = []
     for soap in (False, True):
         prot = sv.app('model', 'soap11' if soap else 'xml', None).in_protocol
         for kn, gk in kinds:
             cls = Color if kn == 'enum' else leaf[kn]
-            for s in texts:
+            for s in texts + longs(kn if kn != 'enum' else 'enum'):
                 try:
-                    if kn == 'bytes':
+                    if kn in ('bytes', 'b64', 'urlsafe', 'hex'):
                         prot.from_unicode(cls, s, prot.binary_encoding)
                     elif kn == 'enum':
                         prot.enum_base_from_bytes(cls, s)
@@ -417,9 +463,11 @@ def leaf_correspondence(check, sv):
 
 
 def run(check):
-    check.rule = ('the modelled application (two classes, four methods: every modelled primitive kind, nesting, arrays, '
+    check.rule = ('the modelled application (two classes, five methods: every modelled primitive kind, ByteArray in all four encodings, nesting, arrays, '
                   'repeated members, an XML attribute, mandatory / non-nillable members) and a richer one for the direct oracle '
-                  '(adds Decimal, Double, Uuid, bounded integers, pattern/length facets, hex binary, AnyDict, AnyXml); a request '
+                  '(adds Decimal, Double, Uuid, bounded integers, pattern/length facets, File, AnyDict, AnyXml); binary members, '
+                  'parameters and bare arguments in every encoding (protocol default, base64, url-safe base64, hex; ByteArray and '
+                  'File; HttpRpc decodes url-safe base64 by default); a request '
                   'is a valid call of a random method with 0..3 structure-aware mutations (leaf corruption, deletion, duplication, '
                   'unknown members, wrong value kinds, wrong nesting, xsi:nil / xsi:type / id / href attributes, entity '
                   'references), rendered for XmlDocument, Soap11, Soap12, JsonDocument, YamlDocument, MessagePackDocument, '
@@ -428,7 +476,11 @@ def run(check):
                   'token / quoted-string / RFC 2231 extended and continued / duplicated / junk, some 50 codec names incl. non-text and '
                   'failing codecs, multipart/related wrappings); wrapped and BARE methods (primitive, Array, class arguments); '
                   'hostile literals incl. characters XML cannot carry, also with an XML-family OUTPUT protocol behind a JSON / YAML / '
-                  'MessagePack input; every validator setting (None, soft, and '
+                  'MessagePack input; LENGTH as a dimension of the leaf sweep: malformed literals of 1, 99, 100, 101, 1000 and 70000 '
+                  'characters for every leaf kind and every binary encoding at every place (member, parameter, array item, bare '
+                  'argument) over every protocol incl. HttpRpc GET; values nested deeper than the recursion limit where a leaf, an '
+                  'array or an object belongs; SwA attachments whose envelope has no message element or whose Content-ID / '
+                  'Content-Location carry quotes or non-ASCII bytes; every validator setting (None, soft, and '
                   'lxml for the XML family), through ServerBase and through WsgiApplication.  A case is distinct by (service, '
                   'protocol, validator, transport, body, transport parameters)')
     check.trusted = list(lib.COMMON_TRUSTED) + [
@@ -724,6 +776,50 @@ def model_bodies(check, quick):
         for b in G.CORPUS[p]:
             if len(b) < 20000:
                 out.append((p, b))
+    out.extend(binary_bodies(rng, U.MODEL_DESC, quick))
+    return out
+
+
+def binary_bodies(rng, desc, quick):
+    """every binary member / parameter / bare argument of the description x literals of every length up to 1000
+    characters, malformed and well-formed, as text and as a byte string (YAML !!binary, the bin type of msgpack),
+    for every protocol of the model"""
+    from lxml import etree
+    places = []
+    for m, params in desc['methods']:
+        for pn, ty in params:
+            if ty[0] == 'leaf' and G.is_binary_kind(ty[1]):
+                places.append((m, (pn,), ty[1], None))
+            elif ty[0] == 'ref':
+                for fn, fty, kw, kind in dict(desc['classes'])[ty[1]]:
+                    if fty[0] == 'leaf' and G.is_binary_kind(fty[1]):
+                        places.append((m, (pn, fn), fty[1], None))
+    for m, ty in desc.get('bare', []):
+        if ty[0] == 'leaf' and G.is_binary_kind(ty[1]):
+            places.append((m, (), ty[1], ty))
+    out = []
+    for m, path, k, bare_ty in places:
+        lits = [t for t in G.long_literals(rng, k, every=not quick) if len(t) <= 1000] + list(G.KIND_JUNK.get(k, [])) \
+            + list(G.VALID_LEAF.get(k, [])) + ['\ud800', 'YWJj\ud800' * 30, b'', b'abc', b'YWJj', b'6162', b'\xff', b'A' * 101,
+                                              b'zz' * 60, None, 5, True, [], {}]
+        if quick:
+            lits = rng.sample(lits, 5)
+        for lit in lits:
+            if bare_ty is not None:
+                args, doc = G.Bare(lit, bare_ty), {m: lit}
+            else:
+                args = G.put_at(G.gen_value_for_method(rng, desc, m, path), path, lit)
+                doc = {m: args}
+            for p in ('json', 'yaml', 'msgpack'):
+                b = G.render_dict(p, G.msgpack_top(doc) if p == 'msgpack' else doc)
+                if b is not None:
+                    out.append((p, b))
+            if isinstance(lit, str) or lit is None:
+                for p, ns in (('xml', None), ('soap11', G.S11)):
+                    try:
+                        out.append((p, etree.tostring(G.render_xml(desc, m, args, ns))))
+                    except Exception:
+                        pass
     return out
 
 
